@@ -29,7 +29,7 @@ type c11Ref struct {
 	// WithNil: the pair is written wv=nl - its value is nil. The pair still counts: the included
 	// template sees an empty wv, not the includer's
 	WithNil bool `json:"with_nil_value,omitempty"`
-	Dead     bool   `json:"never_executed,omitempty"` // lazy include under a false condition
+	Dead    bool `json:"never_executed,omitempty"` // lazy include under a false condition
 	// Var / GlobalName (lazy includes of the top-level file only): the name is the value of the
 	// context variable Var; the set's Globals bind the same variable to GlobalName, another
 	// name - the caller's context wins, and what counts is the value at run time
@@ -54,9 +54,13 @@ type c11Spec struct {
 	Files   []c11File `json:"files"`
 	Entry   string    `json:"entry"` // FromFile, FromCache, FromString, FromBytes, RenderTemplate{String,Bytes,File}
 	// WarmUp: the set is used once with its first loader only; the others are added afterwards
-	WarmUp  bool   `json:"loaders_added_after_first_use,omitempty"`
-	TopName string `json:"top_name"`
-	Root    string `json:"-"` // local kinds: temp dir
+	WarmUp bool `json:"loaders_added_after_first_use,omitempty"`
+	// LateLoaders: the template is created while the set has its first loader only; the others
+	// are added before it is executed. Names computed at run time are looked up in the set's
+	// loaders as they are then.
+	LateLoaders bool   `json:"loaders_added_between_compile_and_execute,omitempty"`
+	TopName     string `json:"top_name"`
+	Root        string `json:"-"` // local kinds: temp dir
 }
 
 type c11Checker struct{}
@@ -269,6 +273,9 @@ func c11Gen(tp *Tapes) *c11Spec {
 		sp.Entry = "FromFile"
 	}
 	sp.WarmUp = sp.NDisks > 1 && sp.Entry != "FromCache" && g.Draw(3) == 0
+	if !sp.WarmUp && sp.NDisks > 1 && (sp.Entry == "FromFile" || sp.Entry == "FromString" || sp.Entry == "FromBytes") && g.Draw(3) == 0 {
+		sp.LateLoaders = true
+	}
 	if c11StringEntry(sp.Entry) {
 		// a string template has no location: keep the top file at the root so that
 		// relative names mean the same thing
@@ -552,6 +559,7 @@ type c11Fault struct {
 }
 
 type c11Ref2 struct {
+	nd      int // loaders the set has right now
 	sp      *c11Spec
 	byPath  map[string]int // resolved (engine-visible, normalised) path -> file index
 	faults  []c11Fault
@@ -590,7 +598,7 @@ func (r *c11Ref2) fetch(name string) (file, disk int, status int) {
 		dp = normPath(name)
 	}
 	idx, exists := r.byPath[dp]
-	for d := 0; d < r.sp.NDisks; d++ {
+	for d := 0; d < r.nd; d++ {
 		has := false
 		if exists {
 			for _, fd := range r.sp.Files[idx].Disks {
@@ -884,6 +892,13 @@ func (c11Checker) Run(tp *Tapes, opt RunOpt) *Outcome {
 		set := pongo2.NewSet("C11", loaders[0])
 		c11Globals(sp, set)
 		var ro runOut
+		added := false
+		addRest := func() {
+			if !added && len(loaders) > 1 {
+				set.AddLoader(loaders[1:]...)
+			}
+			added = true
+		}
 		enter := func() {
 			defer func() {
 				if p := recover(); p != nil {
@@ -938,6 +953,7 @@ func (c11Checker) Run(tp *Tapes, opt RunOpt) *Outcome {
 				ro.res.Err, ro.res.Failed = "compile: "+err.Error(), true
 				return
 			}
+			addRest() // (LateLoaders: only now)
 			s, err := tpl.Execute(c11Ctx(sp))
 			if err != nil {
 				ro.res.Err, ro.res.Failed = "execute: "+err.Error(), true
@@ -958,8 +974,8 @@ func (c11Checker) Run(tp *Tapes, opt RunOpt) *Outcome {
 			w.Fired = map[string]int{}
 			out.probe("loaders_added_after_first_use")
 		}
-		if len(loaders) > 1 {
-			set.AddLoader(loaders[1:]...)
+		if !sp.LateLoaders {
+			addRest()
 		}
 		w.Plan = plan
 		enter()
@@ -982,6 +998,11 @@ func (c11Checker) Run(tp *Tapes, opt RunOpt) *Outcome {
 	// the reference for the same fault set
 	reference := func(faults []c11Fault) (c11Result, map[string]bool, map[string]int) {
 		r := &c11Ref2{sp: sp, byPath: byPath, faults: faults, seen: map[string]int{}, probes: map[string]int{}, fetched: map[string]bool{}}
+		r.nd = sp.NDisks
+		if sp.LateLoaders {
+			r.nd = 1
+			r.probes["loaders_added_between_compile_and_execute"]++
+		}
 		var res c11Result
 		var node *c11Node
 		st := c11OK
@@ -1031,6 +1052,7 @@ func (c11Checker) Run(tp *Tapes, opt RunOpt) *Outcome {
 			res.Failed = true
 			return res, r.fetched, r.probes
 		}
+		r.nd = sp.NDisks // executing: all loaders are there
 		var b strings.Builder
 		execName := c11Resolve(sp, "", topName)
 		if c11StringEntry(sp.Entry) {
